@@ -16,8 +16,12 @@ from operator import mul
 from pathlib import Path
 
 import numpy as np
-from numpy.lib.format import (
-    _check_version, _write_array_header, dtype_to_descr)
+from numpy.lib.format import dtype_to_descr
+try:
+    from numpy.lib.format import _check_version, _write_array_header
+except ImportError:  # pragma: no cover
+    # NumPy >= 2.0 moved the private helpers.
+    from numpy.lib._format_impl import _check_version, _write_array_header
 import mtscomp
 from tqdm import tqdm
 
